@@ -190,6 +190,29 @@ pub fn call<R>(f: impl FnOnce() -> R) -> CallOut<R> {
     }
 }
 
+/// An iterator whose `size_hint` lies (legal for a safe `Iterator`: the hint is advisory).
+pub struct LyingIter<I> {
+    pub inner: I,
+    pub hint: u8,
+}
+
+impl<I: Iterator + ExactSizeIterator> Iterator for LyingIter<I> {
+    type Item = I::Item;
+    fn next(&mut self) -> Option<I::Item> {
+        self.inner.next()
+    }
+    fn size_hint(&self) -> (usize, Option<usize>) {
+        let n = self.inner.len();
+        match self.hint {
+            0 => (n, Some(n)),
+            1 => (0, None),
+            2 => (n / 2, None),
+            3 => (usize::MAX, None),
+            _ => (2 * n + 7, None),
+        }
+    }
+}
+
 pub fn pred_mask(seed: u64, pct: u8, kv: u32) -> bool {
     (splitmix64(seed ^ (kv as u64).wrapping_mul(0x9E37_79B9)) % 100) < pct as u64
 }
